@@ -36,7 +36,7 @@ PROJ = {
 # case only build the state; a deviation there is visible in the snapshots of the compared ones.
 RELEVANT = {
     "C08": {"alg", "is_subset", "is_superset", "is_disjoint", "sub"},
-    "C09": {"iter", "get", "get_mut"},
+    "C09": {"iter", "get", "get_mut", "shapes"},
     "C13": {"gdm", "gdum", "get_mut"},
     "C14": {"eq"},
     "C19": {"fmt", "iter", "alg", "drain", "into_iter"},
